@@ -31,6 +31,13 @@ def context_lines(ctx, text_dumps=True):
         add('str ' + canon(call(lambda: mask(str(ctx)))))
     add('definition ' + canon(call(lambda: mask(repr(ctx.definition())))))
     add('relations ' + canon(call(lambda: [(type(r).__name__, r.left, r.right) for r in ctx.relations()])))
+    add('relations_str ' + canon(call(lambda: str(ctx.relations()))))
+    if len(ctx.objects) * len(ctx.properties) <= 150:
+        import concepts
+        add('fcbo ' + canon(call(lambda: [(tuple(e.iter_set()), tuple(i.iter_set()))
+                                          for e, i in concepts.algorithms.get_concepts(ctx)])))
+        add('fcbo_dual ' + canon(call(lambda: [(tuple(e.iter_set()), tuple(i.iter_set()))
+                                               for e, i in concepts.algorithms.fcbo_dual(ctx)])))
     add('relations_unary ' + canon(call(lambda: [mask(str(r)) for r in ctx.relations(include_unary=True)])))
     return out
 
